@@ -538,6 +538,19 @@ func genSeq(t *rapid.T) Case {
 				op.ID = 0
 			}
 			c.Ops = append(c.Ops, op)
+			if rapid.Bool().Draw(t, "re-report") {
+				// the removed region is reported again with exactly the descriptor sent last
+				// (a store that has not heard of the removal yet), then PD may restart
+				for j := len(c.Ops) - 2; j >= 0; j-- {
+					if c.Ops[j].Kind == "hb" && c.Ops[j].ID == op.ID {
+						c.Ops = append(c.Ops, c.Ops[j])
+						if rapid.Bool().Draw(t, "re-report-restart") {
+							c.Ops = append(c.Ops, Op{Kind: "restart", Kill: rapid.Bool().Draw(t, "kill2")})
+						}
+						break
+					}
+				}
+			}
 		case k < 17:
 			var key string
 			if rapid.Bool().Draw(t, "probe") {
